@@ -118,7 +118,16 @@ static void body(void) {
     /* ---- pure hint-following walk (C10c): feed exactly what is asked ---- */
     ZSTD_DCtx* hd = ZSTD_createDCtx(); ZSTD_DDict* hdd = NULL;
     if (r->dlen) { hdd = ZSTD_createDDict(r->dict, r->dlen); ZSTD_DCtx_refDDict(hd, hdd); }
-    {   size_t consumed = 0, produced = 0, hint = ZSTD_initDStream(hd), sumHints = 0; int f = 0; size_t frameStart = 0;
+    for (int prior = 0; prior < 3 && !vx_failed; prior++) {
+        /* prior 1 / 2: the context first decoded another frame whose output was never drained - every input byte given, one byte of output room per call, 3 calls /
+         * until the input is used up - and was then abandoned (the walk starts with ZSTD_initDStream, i.e. a session reset): nothing of that session may carry over */
+        if (prior) {
+            static u8 pf[2048]; static size_t pfl; static u8 ptext[1500];
+            if (!pfl) { fill_text(ptext, sizeof ptext, 61); pfl = ZSTD_compress(pf, sizeof pf, ptext, sizeof ptext, 1); }
+            ZSTD_initDStream(hd); ZSTD_inBuffer pin = { pf, pfl, 0 }; u8 one[1];
+            for (int pc = 0; pc < (prior == 1 ? 3 : 4000); pc++) { ZSTD_outBuffer po = { one, 1, 0 }; size_t pr = ZSTD_decompressStream(hd, &po, &pin); if (ZSTD_isError(pr) || pr == 0) break; if (prior == 2 && pin.pos == pin.size && pc > 20) break; }
+        }
+        size_t consumed = 0, produced = 0, hint = ZSTD_initDStream(hd), sumHints = 0; int f = 0; size_t frameStart = 0;
         if (r->dlen) ZSTD_DCtx_refDDict(hd, hdd);
         for (int it = 0; it < 100000 && consumed < r->flen; it++) {
             size_t give = hint; if (give > r->flen - consumed) give = r->flen - consumed;
